@@ -216,6 +216,10 @@ func (g *DocGen) ext(o obj, path []string, kind string, depth int) {
 			continue
 		}
 		o[nm] = g.payload(1, true)
+		if g.XOrder && g.R.Intn(4) == 0 {
+			// the decoder takes any case of the prefix and keeps the name as written: "X-foo" next to "x-foo" are two members
+			o["X-"+nm[2:]] = g.payload(1, true)
+		}
 	}
 	g.cell(kind, "x-")
 }
